@@ -408,6 +408,11 @@ fn gen_inputs(family: &str, rng: &mut Rng, n: usize, seeds: &[String]) -> Vec<St
                 v.push(directive_heavy(rng));
             }
         }
+        "pairs" => {
+            for _ in 0..n {
+                v.push(token_pairs(rng));
+            }
+        }
         "soup_enum" => {
             for i in 0..n {
                 v.push(soup_enum(i));
